@@ -58,8 +58,8 @@ class Inliner:
     def candidates(self) -> Dict[str, object]:
         out = {}
         for key, f in self.tree.funcs.items():
-            if f.module.is_test() or (key in self.pinned and key not in ALWAYS_INLINE) or f.parent is not None:
-                continue
+            if f.module.is_test() or (key in self.pinned and key not in ALWAYS_INLINE) or (f.parent is not None and f.cls is None):
+                continue  # plain nested functions are closures; methods of a class defined inside a function are ordinary methods
             n = f.node
             if n.name.startswith("__") and n.name.endswith("__") and n.name in PY_SPECIAL:
                 continue
@@ -237,6 +237,34 @@ class Inliner:
                     gp = getattr(par, "_parent", None)
                     if not (isinstance(par, ast.Call) and par.func is n and isinstance(gp, ast.For) and gp.iter is par):
                         self.generators.pop(key, None)
+        # a new module-level function that is one expression, passed as a value (`key=_item_key`), is the lambda it stands for
+        for key, g in list(cands.items()):
+            body = [x for x in g.node.body if not (isinstance(x, ast.Expr) and isinstance(x.value, ast.Constant) and isinstance(x.value.value, str))]
+            a = g.node.args
+            if g.cls is not None or len(body) != 1 or not isinstance(body[0], ast.Return) or body[0].value is None or a.defaults or a.kwonlyargs or isinstance(g.node, ast.AsyncFunctionDef):
+                continue
+            for n in list(ast.walk(g.module.tree)):
+                if isinstance(n, ast.Name) and n.id == g.name and isinstance(n.ctx, ast.Load):
+                    par = getattr(n, "_parent", None)
+                    if par is None or (isinstance(par, ast.Call) and par.func is n):
+                        continue
+                    # fresh parameter names: the function's own may be locals of the place it is passed from
+                    ren = {x.arg: f"__fv_{x.arg}" for x in a.posonlyargs + a.args}
+                    lbody = ast_copy(body[0].value)
+                    for y in ast.walk(lbody):
+                        if isinstance(y, ast.Name) and y.id in ren:
+                            y.id = ren[y.id]
+                    lam = ast.Lambda(args=ast.arguments(posonlyargs=[], args=[ast.arg(arg=ren[x.arg]) for x in a.posonlyargs + a.args], kwonlyargs=[], kw_defaults=[], defaults=[]),
+                                     body=lbody)
+                    ast.copy_location(lam, n)
+                    ast.fix_missing_locations(lam)
+                    for fld, val in ast.iter_fields(par):
+                        if val is n:
+                            setattr(par, fld, lam)
+                        elif isinstance(val, list) and any(v is n for v in val):
+                            setattr(par, fld, [lam if v is n else v for v in val])
+                    lam._parent = par
+                    self._spliced.setdefault(key, set()).add("(as a value)")
         # any reference that is not a direct call disqualifies a candidate
         for key, g in list(cands.items()):
             name = g.name
